@@ -42,6 +42,8 @@ fn prop_schema(g: &mut G) -> (Value, bool) {
         json!({"type": "integer", "format": "uint8"}),
         json!({"type": "object", "additionalProperties": {"type": "integer"}}),
         json!({"type": "array", "items": [{"type": "integer"}, {"type": "string"}], "minItems": 2, "maxItems": 2}),
+        // a property that admits one value only still has to be supplied when it is required
+        json!({"type": "null"}),
     ];
     let s = g.pick(&opts).clone();
     let defaultable = s.get("$ref").is_none();
@@ -102,7 +104,7 @@ pub fn gen_c18_case(g: &mut G) -> Value {
                 o.remove("default");
             }
             let mut v = inst.gen(g, &ps, 2);
-            if v.is_null() && ps.get("type") != Some(&json!(["string", "null"])) {
+            if v.is_null() && ps.get("type") != Some(&json!(["string", "null"])) && ps.get("type") != Some(&json!("null")) {
                 v = json!(0);
             }
             obj.insert(n.clone(), v);
